@@ -100,6 +100,9 @@ class Scenario:
         self.g1 = g1 if g1 is not None else sizes.G - 1
         self.opn = 0
         self.outcomes = []
+        self.prev = None
+        self.last_kind = None
+        self.last_result = None
 
     @property
     def db(self):
@@ -342,7 +345,10 @@ class Scenario:
     }
 
     def apply(self, kind, idx):
-        return self.OPS[kind](self, f's{idx}_{kind}')
+        self.prev = self.db.copy()
+        self.last_kind = kind
+        self.last_result = self.OPS[kind](self, f's{idx}_{kind}')
+        return self.last_result
 
     def record(self, label, assertions):
         self.steps.append((label, assertions))
